@@ -101,7 +101,28 @@ fn workload_strategy() -> BoxedStrategy<Workload> {
         proptest::collection::vec(proptest::collection::vec(simple_op(), 0..3), 16),
         1u8..=3,
     )
-        .prop_map(|((shared_group, shared_base, shared_n, shared_pair), ops, threads, assignment, prefixes, reps)| Workload { shared_group, shared_base, shared_n, shared_pair, ops, threads, assignment, prefixes, reps })
+        .prop_map(|((shared_group, shared_base, shared_n, shared_pair), ops, threads, assignment, prefixes, reps)| {
+            // every other hashing operation gets a SIBLING request right behind it: the same bytes msg || tag with the
+            // boundary between message and tag moved (a memo keyed by the concatenation confuses the two)
+            let mut ops2 = vec![];
+            for (i, op) in ops.into_iter().enumerate() {
+                let sib = match &op {
+                    WOp::Hash(g, ro, e, m, d) if i % 2 == 0 => {
+                        let (mb, db) = (m.build(), d.build());
+                        let k = if mb.len() % 2 == 0 { 1 + (mb.len() % 5) as i8 } else { -(1 + (db.len() % 5) as i8) };
+                        let (m2, d2) = super::c13::shift_boundary(&mb, &db, k);
+                        if (m2.clone(), d2.clone()) != (mb, db) && m2.len() <= 300 { Some(WOp::Hash(*g, *ro, *e, BytesR::Lit(m2), BytesR::Lit(d2))) } else { None }
+                    }
+                    _ => None,
+                };
+                ops2.push(op);
+                if let Some(s) = sib {
+                    ops2.push(s);
+                }
+            }
+            ops2.truncate(14);
+            Workload { shared_group, shared_base, shared_n, shared_pair, ops: ops2, threads, assignment, prefixes, reps }
+        })
         .boxed()
 }
 
